@@ -203,7 +203,7 @@ void run_qcase(std::istream &in) {
     qcase<Q, T> c;
     std::vector<std::unique_ptr<cb_consumer<Q, T>>> cbs;   // destroyed before c (declared after it)
     c.q.reset(new Q());
-    alarm(4);       // a re-entrant deadlock shows as a hang: die instead (reported as a crash, rc = -SIGALRM)
+    alarm(5);       // a re-entrant deadlock shows as a hang: die instead (reported as a crash, rc = -SIGALRM)
     std::vector<std::string> evs;
     std::string line;
     auto swallow = [&] {
@@ -407,7 +407,7 @@ void run_mtcase(std::istream &in, bool is_void, const std::vector<std::string> &
         if (w[0] == "end") { vh::emit("end", evs); return; }
         if (w[0] == "run") {
             // a lost item / lost wake-up shows as a hang: die instead (reported as a crash, rc = -SIGALRM)
-            alarm(8 + (unsigned)((long long)P * N / 10000));
+            alarm(12 + (unsigned)((long long)P * N / 5000));
             std::string r = is_void ? run_mt<void>(P, C, N, mode, seed) : run_mt<int>(P, C, N, mode, seed);
             alarm(0);
             vh::emit(r, evs);
@@ -469,6 +469,7 @@ void run_sqcase(std::istream &in) {
     using Q = sq_t<T>;
     sched sc;
     g_sched = &sc;
+    alarm(15);      // never expected to fire; a hang must not stall the whole check
     std::unique_ptr<Q> q(new Q());
     g_nawait = [&] { return q->nawait(); };
     struct rec { std::unique_ptr<future<T>> f; bool reported = false; };
@@ -534,6 +535,7 @@ void run_sqcase(std::istream &in) {
         if (w[0] == "end") {
             shutdown("end");
             g_sched = nullptr;
+            alarm(0);
             return;
         } else if (w[0] == "destroy") {
             shutdown("destroy");
@@ -543,6 +545,7 @@ void run_sqcase(std::istream &in) {
             }
             vh::emit("end", evs);
             g_sched = nullptr;
+            alarm(0);
             return;
         } else if (w[0] == "push") {
             int v = w.size() > 1 ? atoi(w[1].c_str()) : 0;
@@ -586,6 +589,7 @@ void run_sqcase(std::istream &in) {
         vh::emit(head.str(), evs);
     }
     g_sched = nullptr;
+    alarm(0);
 }
 
 int main() {
